@@ -279,6 +279,24 @@ func (c *Ctx) StrLit(s string) Term {
 	return t
 }
 
+// StrLits: the string literals interned so far, in order.
+func (c *Ctx) StrLits() []string {
+	return append([]string{}, c.strOrder...)
+}
+
+// StrLitValue: the text of a string literal term.
+func (c *Ctx) StrLitValue(t Term) (string, bool) {
+	if t.S == BVLit(0, 64).S {
+		return "", true
+	}
+	for s, lt := range c.strLits {
+		if lt.S == t.S {
+			return s, true
+		}
+	}
+	return "", false
+}
+
 func (c *Ctx) Assume(t Term) {
 	if t.IsTrue() {
 		return
